@@ -923,3 +923,40 @@ silent('v05-twin-file-source-end-latch-reset-by-close', ['C11'], [(IO, """      
     @abstractmethod
     def _read_from_stream(self, size):
 """)])
+
+# ------------------------------------------------------------------ round 9 seeds: own minimal forms and twins
+fires('w01-cursor-assigned-before-range-check', ['C11'], [(IO, """        if position < 0 or position > len(self.data):
+            raise IndexError("Position out of range")
+        self._current_position_bytes = position
+""", """        self._current_position_bytes = position
+        if position < 0 or position > len(self.data):
+            raise IndexError("Position out of range")
+""")], 'a rejected assignment has already moved the cursor')
+silent('w02-twin-cursor-restored-before-raising', ['C11'], [(IO, """        if position < 0 or position > len(self.data):
+            raise IndexError("Position out of range")
+        self._current_position_bytes = position
+""", """        previous = self._current_position_bytes
+        self._current_position_bytes = position
+        if position < 0 or position > len(self.data):
+            self._current_position_bytes = previous
+            raise IndexError("Position out of range")
+""")], 'the cursor is put back before the exception leaves')
+fires('w03-limiter-charged-before-the-read', ['C10'], [(UTIL, """        block = self._audio_source.read(size)
+        if block is None:
+            return None
+        self._read_samples += len(block) // self._bytes_per_sample
+        return block
+""", """        self._read_samples += size
+        block = self._audio_source.read(size)
+        if block is None:
+            return None
+        return block
+""")], 'a read that raises is charged against max_read')
+fires('w04-observers-or-default', ['C12'], [(WORKERS, "        self._observers = observers if observers is not None else []\n", "        self._observers = observers or []\n")],
+      'an explicitly empty list is replaced by a private one')
+fires('w05-mode-compared-by-identity', ['C02'], [(CORE, """        self._drop_trailing_silence = (mode & self.DROP_TRAILING_SILENCE) != 0
+""", """        self._drop_trailing_silence = mode is self.DROP_TRAILING_SILENCE or mode is strict_min_and_drop_trailing
+""")], 'numpy integers and IntFlag members are equal to the constants, not identical')
+silent('w06-twin-mode-compared-by-equality', ['C02', 'C03', 'C04'], [(CORE, """        self._drop_trailing_silence = (mode & self.DROP_TRAILING_SILENCE) != 0
+""", """        self._drop_trailing_silence = mode == self.DROP_TRAILING_SILENCE or mode == strict_min_and_drop_trailing
+""")])
